@@ -1,7 +1,7 @@
 """C11 — compiled schema matches what the source describes (checker-side matching obligations + compiler dependencies)."""
 import ast
 
-from .common import ctx, returns, calls_in_ctx, site
+from .common import ctx, returns, calls_in_ctx, site, bound_args
 from .lvs import match_rules, CK, CP, last_component_guarded
 from ..flow import callee_attr
 from ..loader import AnalysisError, norm
@@ -111,10 +111,18 @@ def run(R):
             R.ok('C11.PRV.1', inst, site(rr, lc))
     # alternatives: one chain per constraint set; redefinitions accumulate
     inst = rr.qual + ' :: alternative constraint sets and redefinitions are alternatives'
-    alt = [x for x in ast.walk(rr.f.node) if isinstance(x, ast.ListComp) and len(x.generators) == 1 and ast.unparse(x.generators[0].iter) == 'rule.comp_cons']
+    # one chain per alternative: a comprehension or an explicit loop over rule.comp_cons that builds RuleChain(cons_set=<the alternative>)
+    alt = []
+    for x in ast.walk(rr.f.node):
+        if isinstance(x, ast.ListComp) and len(x.generators) == 1 and ast.unparse(x.generators[0].iter) == 'rule.comp_cons' and not x.generators[0].ifs:
+            alt.append((x, x.generators[0].target, x.elt))
+        if isinstance(x, ast.For) and ast.unparse(x.iter) == 'rule.comp_cons' and len(x.body) == 1 and isinstance(x.body[0], ast.Expr) \
+                and isinstance(x.body[0].value, ast.Call) and callee_attr(x.body[0].value) == 'append' and x.body[0].value.args:
+            alt.append((x, x.target, x.body[0].value.args[0]))
     acc = [n for n in rr.cfg.nodes if n.kind == 'stmt' and isinstance(n.ast, ast.AugAssign) and ast.unparse(n.ast.target) == 'self.rep_rules[rule.id.id]']
-    if len(alt) == 1 and any(k.arg == 'cons_set' and ast.unparse(k.value) == ast.unparse(alt[0].generators[0].target) for k in alt[0].elt.keywords) and len(acc) == 1:
-        R.ok('C11.PRV.1', inst, site(rr, alt[0]))
+    if len(alt) == 1 and isinstance(alt[0][2], ast.Call) and ast.unparse(bound_args(P, rr, alt[0][2]).get('cons_set', ast.Constant(None))) == ast.unparse(alt[0][1]) \
+            and len(acc) == 1:
+        R.ok('C11.PRV.1', inst, site(rr, alt[0][0]))
     else:
         R.fail('C11.PRV.1', inst, rr.qual, 'def _replicate_rules', 'alternative constraint sets / repeated rule definitions are not kept as separate chains', site(rr, rr.f.node))
     R.ob('C11.NUL.1', 'match(): the empty name is matched like any other (its absent last component is not inspected)')
